@@ -145,7 +145,17 @@ def sections(ctx, out):
         want_ticks = sorted(int(n.split(" ")[1]) for n in notes)
         d = gen.parse_dump(x)
         if d["err"] is not None:
-            # an out-of-order twin can legitimately raise ValueError (C11); anything else is not promised here
+            # the one documented refusal such a section can earn (single tempo, small ticks): a forced flag on its first note — decided
+            # from the lines: the first run of accepted N lines with one tick holds index 5
+            first = []
+            for n_ in notes:
+                if first and n_.split(" ")[1] != first[0].split(" ")[1]:
+                    break
+                first.append(n_)
+            forced_first = any(n_.split(" ")[2] == "5" for n_ in first)
+            if not (d["err"] == "E ValueError" and forced_first) and max([int(n_.split(" ")[1]) for n_ in notes] + [0]) < 10**9:
+                out.violation("section-" + fw.h(text), f"instrument section whose first note carries no forced flag was refused ({d['err']}): its own lines give no reason",
+                              {**rp, "sps": sps, "tes": tes, "ticks": sorted(set(want_ticks)), "warn": warn}, observed=d["err"], promised="parses")
             continue
         tr = d["tracks"].get((0, 3), {"notes": [], "sps": [], "tes": []})
         got_sp = [f"sp {t} {ln}" for t, ln, *_ in tr["sps"]]
@@ -172,7 +182,7 @@ def replay(ctx, data):
             x = impl.run_chart(data["text"])
         d = gen.parse_dump(x)
         if d["err"] is not None:
-            return False, x
+            return True, x   # every stored section was promised to parse
         tr = d["tracks"].get((0, 3), {"notes": [], "sps": [], "tes": []})
         got = ([f"sp {t} {ln}" for t, ln, *_ in tr["sps"]], [f"te {t} {v}" for t, _, _, v in tr["tes"]], sorted({n["tick"] for n in tr["notes"]}), d["unparsable"])
         return got != (data["sps"], data["tes"], data["ticks"], data["warn"]), str(got)[:300]
